@@ -367,7 +367,9 @@ func (s *pstate) clone() *pstate {
 	return n
 }
 
-func (s *pstate) ev(format string, a ...interface{}) { s.trace = append(s.trace, fmt.Sprintf(format, a...)) }
+func (s *pstate) ev(format string, a ...interface{}) {
+	s.trace = append(s.trace, fmt.Sprintf(format, a...))
+}
 
 func (s *pstate) total(k string, coll map[string]int, depth int) int {
 	if depth > 8 {
